@@ -497,9 +497,23 @@ class Sim:
         if any(a is not b for a, b in zip(rev, reversed(M))) or len(rev) != len(M):
             self.fail("reversed-vs-model", "reversed(graph) is not the mirror of the sequence")
         k = len(M)
-        for i in ({0, k - 1, k // 2} if k else set()):
-            if cont[i] is not M[i] or cont[i - k] is not M[i]:
-                self.fail("index-vs-model", f"graph[{i}] / graph[{i - k}] disagree with the sequence")
+        # random access, not a sweep: every index in an order that changes from step to step (an implementation may keep
+        # a cursor between lookups), non-negative and negative spellings separately; the last lookup is a small index
+        import random as _random
+
+        order = list(range(k))
+        _random.Random(self.time * 7919 + k).shuffle(order)
+        for i in order[:6]:
+            got = cont[i]
+            if got is not M[i]:
+                self.fail("index-vs-model", f"graph[{i}] is {self.name(got)}, the sequence has {self.name(M[i])} there")
+                break
+        for i in order[:3]:
+            if cont[i - k] is not M[i]:
+                self.fail("index-vs-model", f"graph[{i - k}] disagrees with the sequence")
+                break
+        if k > 1 and cont[1 + (self.time % 2 if k > 2 else 0)] is not M[1 + (self.time % 2 if k > 2 else 0)]:
+            self.fail("index-vs-model", "graph[1 or 2] disagrees with the sequence")
         for i in (k, -k - 1):
             try:
                 cont[i]
